@@ -43,4 +43,4 @@ Definition consumers_ok : bool :=
 Definition all_sites_agree : bool :=
   forallb site_maintain_ok sites_maintain && forallb site_pending_ok sites_maintain_or_pending &&
   forallb site_gravdata_ok sites_gravity_data && consumers_ok &&
-  Nat.leb 3 (List.length sites_maintain) && Nat.eqb (List.length sites_maintain_or_pending) 1.
+  Nat.leb 3 (List.length sites_maintain) && Nat.eqb (List.length sites_maintain_or_pending) 2.
